@@ -1,14 +1,20 @@
 import Sm9.Proofs.Pow
 import Sm9.Proofs.Consts
 import Sm9.Proofs.FinalExp
+import Sm9.Proofs.MillerFrobenius
 /-!
 # C17 — the F_q¹² tower engine and final exponentiation on every element
 Ring and **field** structure of Fq4 = Fq2[v]/(v²−u) and Fq12 = Fq4[w]/(w³−v) on the model's own
 interleaved / Karatsuba products; sparse products; squarings; norm-based inverses; the coded
 Frobenius maps are the power maps x ↦ x^(q^k); `pow(u128)` is exponentiation; **both**
 final-exponentiation routines map every non-zero x to x^((q¹²−1)/r) (and agree on all inputs).
-Not yet a theorem: that the two Miller-loop variants agree up to factors killed by the final
-exponentiation — decided by correspondence (`miller.g2` / `miller.prep` against the textbook loop).
+The prepared (line-coefficient) Miller loop is the textbook Miller function up to a factor in
+`Fq2ˣ`, which the final exponentiation removes (`prepared_miller_textbook`, `subfield_factor_killed`;
+every coded line is the textbook line times such a factor: `tangent_line_textbook`, `chord_line_textbook`;
+the sparse product is the product: `sparse_line_product`).
+Not a theorem: that the numerator/denominator loop over the signed-digit chain differs from it only by
+factors killed by the final exponentiation (independence of the Miller function of the addition chain
+needs divisor theory) — decided by correspondence (`miller.g2` / `miller.prep` against the textbook loop).
 -/
 namespace Sm9.C17
 
@@ -82,5 +88,32 @@ theorem final_exp_zero : (0 : Fq12).final_exp = .ok none ∧ (0 : Fq12).final_ex
 theorem final_exp_variants_agree (x : Fq12) : x.final_exp = x.final_exponentiation :=
   Fq12.final_exp_eq_final_exponentiation x
 theorem r_divides : r ∣ q ^ 12 - 1 := Fq12.r_dvd
+
+/-! ## the prepared Miller loop -/
+open Miller in
+/-- the tangent step: new point is the doubling, and the coded line is `κ ·` (textbook tangent at `T`
+    evaluated at `P`) with `κ = c0·u ∈ Fq2ˣ` -/
+theorem tangent_line_textbook (T : G2) (xP yP : Fq) (hz : T.z ≠ 0) (hy : T.y ≠ 0) :
+    (G2m.g_tangent T).1 = T.double ∧ (G2m.g_tangent T).2.1 ≠ 0 ∧
+    G2Prepared.get_fq12 (G2m.g_tangent T).2 (Fq2.new yP 0).mul_by_nonresidue xP
+      = Fq12.ofFq2 ((G2m.g_tangent T).2.1 * Fq2.i)
+        * lineSpec (T.x / T.z ^ 2) (T.y / T.z ^ 3)
+            (3 * (T.x / T.z ^ 2) ^ 2 / (2 * (T.y / T.z ^ 3))) xP yP :=
+  g_tangent_line T xP yP hz hy
+open Miller in
+/-- the sparse product used by the loop is the field product -/
+theorem sparse_line_product (f : Fq12) (c : Fq2 × Fq2 × Fq2) (t1 : Fq2) (x : Fq) :
+    f.mul_015 (G2Prepared.get_fq12 c t1 x) = f * G2Prepared.get_fq12 c t1 x := mul_015_get_fq12 f c t1 x
+open Miller in
+theorem prepared_miller_textbook (xP yP : Fq) (xQ yQ : Fq2) (hQ : yQ * yQ = xQ * xQ * xQ + b2)
+    (k : Nat) (hk : twPt (xQ, yQ) = k • twPt genXY) :
+    ∃ κ : Fq2, κ ≠ 0 ∧
+      (do let pr ← G2Prepared.from_ (⟨xQ, yQ, 1⟩ : G2); pr.miller_loop (⟨xP, yP, 1⟩ : G1))
+        = .ok (Fq12.ofFq2 κ * specMiller xP yP xQ yQ) :=
+  prepared_miller_eq_spec_G2 xP yP xQ yQ hQ k hk
+open Miller in
+theorem subfield_factor_killed (κ : Fq2) (hκ : κ ≠ 0) : Fq12.ofFq2 κ ^ ((q ^ 12 - 1) / r) = 1 :=
+  ofFq2_pow_final κ hκ
+theorem subfield_order_divides : q ^ 2 - 1 ∣ (q ^ 12 - 1) / r := Miller.fq2_card_dvd
 
 end Sm9.C17
